@@ -7,7 +7,7 @@ ALL = ["C%02d" % i for i in range(1, 21)]
 CLAIMED = {
     "C02": ("DESIGN.md 6/C02",
             "Lean 4 theorems about a hand-written model of the cost-table code (mirror law, table = definition, "
-            "positions = bucket ids, selected entries sum to the Kemeny score, entries independent of the order of the rankings and of element names: C02_perm, C02_rename) for all schemes/datasets, tied to "
+            "positions = bucket ids, selected entries sum to the Kemeny score, entries independent of the order of the rankings and of element names: C02_perm, C02_rename, C02_rename_table) for all schemes/datasets, tied to "
             "the code by a differential correspondence run on the table, both matrices and the id order.",
             "Trusted: Lean kernel + {propext, Classical.choice, Quot.sound}; hand translation (validated by the "
             "correspondence run, dyadic penalties so floats are exact); harness/driver encoding.",
